@@ -1,1 +1,47 @@
-From WT Require Import Base.Wrap.
+(** * C08 — copy makes the destination equal to the source over the requested window.
+    Proved here: what the command does around the write (never modifies the source — the source
+    is not part of the result; creates a missing destination; writes nothing unless it reports
+    success; does nothing when nothing differs).  The slot-wise equality after a successful copy
+    is the composition of C01 (fetch = live of the log), [spec_archive_update_frame] and
+    [live_prepend_window]; its end-to-end statement over [copy_core] is listed as open in DESIGN.md. *)
+From WT Require Import Base.Wrap Base.ListX Model.Time Model.Ring Model.Update Spec.LogSpec Model.Handle Model.Cmd
+  Proofs.CmdProofs Proofs.FrameProofs.
+
+Theorem C08_failure_leaves_existing_dest F src dh o until now :
+  r_status (copy_core F src (Some dh) o until now) <> StOk ->
+  r_dest (copy_core F src (Some dh) o until now) = Some dh.
+Proof. exact (copy_core_failure_leaves_dest F src dh o until now). Qed.
+Print Assumptions C08_failure_leaves_existing_dest.
+
+Theorem C08_creates_missing_dest F src o until now fresh :
+  create (co_method o) (co_xff o) (co_layout o) = Some fresh ->
+  exists d, r_dest (copy_core F src None o until now) = Some d /\ hd_hdr_on_disk d = true.
+Proof. exact (copy_core_creates_missing_dest F src o until now fresh). Qed.
+Print Assumptions C08_creates_missing_dest.
+
+Theorem C08_nothing_differs_nothing_written F sh sl dh d dl o until now fresh :
+  create (co_method o) (co_xff o) (co_layout o) = Some fresh ->
+  opened (Some dh) = Some d ->
+  fetch_ts_list (hd_arcs d) (co_archive o) (co_from o) until now = TslOk dl ->
+  layout_eqb (layout_of_arcs (hd_arcs sh)) (layout_of_arcs (hd_arcs d)) = true ->
+  all_eq_range_step sl dl = true ->
+  all_empty (fst (tsl_diff (co_copy_nan o) sl dl)) && all_empty (snd (tsl_diff (co_copy_nan o) sl dl)) = true ->
+  copy_core F (RdOk sh sl) (Some dh) o until now = mkResult StOk (Some dh) [].
+Proof. exact (copy_core_nothing_to_do F sh sl dh d dl o until now fresh). Qed.
+Print Assumptions C08_nothing_differs_nothing_written.
+
+(** the two facts the slot-wise equality rests on (log level): a batch handed to archive [a]
+    prepends exactly its aligned points to log [a] and leaves finer logs alone; prepending entries
+    that lie in one window changes [live] only at those entries' own slots *)
+Theorem C08_batch_frame F m xff L logs a pts logs' :
+  spec_archive_update F m xff L logs a pts = Some logs' -> 0 <= a < zlen logs ->
+  get_log logs' a = rev (align_points (lay_step L a) pts) ++ get_log logs a /\
+  (forall j, 0 <= j < a -> get_log logs' j = get_log logs j) /\ zlen logs' = zlen logs.
+Proof. exact (spec_archive_update_frame F m xff L logs a pts logs'). Qed.
+Print Assumptions C08_batch_frame.
+Theorem C08_window_write_is_local es log f S n N e :
+  0 < S -> 0 < n <= N -> Forall (fun p => in_window f S n (p_time p)) es -> in_window f S n e ->
+  live_opt (es ++ log) (S * N) e =
+  match find_time es e with Some v => Some v | None => live_opt log (S * N) e end.
+Proof. exact (live_prepend_window es log f S n N e). Qed.
+Print Assumptions C08_window_write_is_local.
